@@ -10,9 +10,19 @@ from .env import VERIF
 SCHEMA = "/root/.vp/EVIDENCE.schema.json"
 
 
+def evidence_dir():
+    """/verif/evidence for runs against /repo; runs against a scratch copy (VERIF_SRC_ROOT set to
+    something else, used for seeded-change experiments) write under /verif/scratch instead."""
+    from .env import SRC_ROOT
+
+    if SRC_ROOT == "/repo":
+        return os.path.join(VERIF, "evidence")
+    return os.path.join(VERIF, "scratch", "evidence")
+
+
 def write(prop, tier, seed, coverage, assumptions, wall_s, violations):
-    os.makedirs(os.path.join(VERIF, "evidence"), exist_ok=True)
-    path = os.path.join(VERIF, "evidence", f"{prop}.json")
+    os.makedirs(evidence_dir(), exist_ok=True)
+    path = os.path.join(evidence_dir(), f"{prop}.json")
     doc = {
         "property_id": prop,
         "tier": tier,
